@@ -998,9 +998,9 @@ func (g *gRun) exportPoint() {
 	}
 	// the invariants assumed by the C16 theorems hold of the model state (evaluated by the Lean driver)
 	if g.lean {
-		g.out.Impl("inv 1 1 1 1 1 1")
+		g.out.Impl("inv 1 1 1 1 1 1 1")
 	} else {
-		g.out.Impl("inv 1 1")
+		g.out.Impl("inv 1 1 1")
 	}
 	// canonical state of the restarted chain = what the model's import (export σ) must print
 	if g.lean {
@@ -1168,6 +1168,15 @@ func runGenesis(seed uint64, n int, out *Out) {
 					g.grant(pd, creator, 1, 100)
 				}
 				g.withdraw(m, creator, pd, p.Index, mode, amount)
+			case !lean && x >= 50 && x < 62 && len(g.subOwners) > 0:
+				switch r.Intn(4) {
+				case 0:
+					g.subHouseDeposit(m)
+				case 1:
+					g.subHouseWithdraw(m)
+				default:
+					g.subWager(m)
+				}
 			case x < 62:
 				odds := []string{"1.5", "2", "1.000000000000000610", "3.25", "10", "1.07"}[r.Intn(6)]
 				amount := r.Pick([]int64{2, 3, 5, 10, 22, 50, 51, 100, 492})
@@ -1293,6 +1302,7 @@ func runGenesisScripted(_ uint64, _ int, out *Out) {
 			g.endBlock(false, 5)
 			g.finish()
 		},
+		// 6 (appended below): reward — promoter and campaign, nothing granted yet: the import succeeds, the promoter is gone
 		// 4: everything valid — one market with own deposits, pending and settled bets, a withdrawal by the depositor who
 		//    is also the creator; export before and after the settlement
 		func(h int) {
@@ -1333,6 +1343,16 @@ func runGenesisScripted(_ uint64, _ int, out *Out) {
 			g.finish()
 		},
 	}
+	scripts = append(scripts, func(h int) {
+		g := mk(h, true)
+		g.marketAdd(2)
+		g.deposit(g.markets[0], 1, 0, 500)
+		g.rewardPromoter()
+		g.rewardCampaign()
+		g.endBlock(true, 5)
+		g.endBlock(false, 5)
+		g.finish()
+	})
 	for h, f := range scripts {
 		if skipHist(h) {
 			continue
